@@ -173,6 +173,20 @@ PROPS = {
         "level_text": "Canonical printer and strict parser in Gallina; theorems: output has sorted unique members, printing is invariant under member permutation, fixed point and value preservation on the printed form (see Props/C05.v for which parts are proved and which are _partial). Correspondence: spellings of generated values and a double stream against MarshalCanonical.",
         "technique": "Coq proof + differential correspondence (strconv digits as oracle for numbers)",
     },
+    "C08": {
+        "props": "theories/Props/C08.v",
+        "agree": [],
+        "trusted_base": COMMON_TB + [
+            "the builders, the Sidetree client, the library signers and pubkey.GetPublicKeyJWK are exercised, not modelled; the requested document is computed independently by the harness (remove-before-add bookkeeping)",
+            "signature verdict: the library signer's output is verified by the real applier; the model takes sig_ok = true for built requests (labelled)",
+        ],
+        "assumptions": ["valid inputs: keys carry purposes, documents are non-empty, anchoring times below 2^53"],
+        "rule": "lifecycles create -> update* -> recover -> update* -> (deactivate) for all five operation-key types, both hash algorithms, alternately through sidetree.Client (request capture function) and the four builders (incl. anchor origin objects, anchoring windows, in-place key rotation = remove + add of one id); every request parsed (non-batch), converted to anchored form (bytes = canonical request, same suffix/type/origin, same applied state) and applied; byte-level model run on the same bytes; final document / commitments / flags compared with the independently computed request. Plus 12 builder refusal probes.",
+        "clauses": {"1": "builder refused valid input", "2": "built request refused by the matching parser", "3": "anchored form does not preserve the request",
+                    "4": "final document is not the requested one", "5": "update commitment", "6": "recovery commitment", "7": "deactivated flag", "8": "anchor origin"},
+        "level_text": "Lemmas that make builder output acceptable (reveal computed from a key validates against it; a computed delta hash validates) proved on the parser mirror with the real SHA-2; acceptance and 'yields the requested document' for the builders and the Sidetree client checked by correspondence on generated lifecycles incl. anchored form; three builder refusal gaps are listed findings. Partial: the builders themselves are not modelled.",
+        "technique": "Coq lemmas on the parser/applier mirrors + differential correspondence on lifecycles (partial)",
+    },
     "C09": {
         "props": "theories/Props/C09.v",
         "agree": ["theories/Agree/AgreeFuncs.v"],
